@@ -48,3 +48,22 @@ Theorem C12_generated_applies :
     Some (fst (filter_apply S P exec pre ps (add_temp s) [])).
 Proof. exact generated_applies_lemma. Qed.
 Print Assumptions C12_generated_applies.
+
+(** the application order made explicit: filterInvalidPayloads filters context, then VTBs, then ATVs - the order in
+    which a block body is executed - so the body (kept context ++ kept VTBs ++ kept ATVs) executes completely on the
+    same tip state and reaches the state of the temporary block *)
+Theorem C12_generated_applies_ordered :
+  forall (S P : Type) (exec : P -> S -> option S) (pre : P -> list P -> bool) ctx vtbs atvs s,
+    let '(s3, kc, kv, ka) := filter_as_coded S P exec pre ctx vtbs atvs s in
+    exec_body S P exec kc kv ka s = Some s3.
+Proof. exact generated_applies_ordered_lemma. Qed.
+Print Assumptions C12_generated_applies_ordered.
+
+(** for a filter that applies ATVs before VTBs the statement is false (the kept VTB's containing block was known only
+    through an ATV's block of proof) *)
+Theorem C12_generated_applies_other_order_refuted :
+  let '(s3, kc, kv, ka) := filter_atvs_first (list N) N om_exec (fun _ _ => true) [] [3] [1] [] in
+  kv = [3] /\ ka = [1] /\ exec_body (list N) N om_exec kc kv ka [] = None.
+Proof. exact generated_applies_other_order_refuted_lemma. Qed.
+Print Assumptions C12_generated_applies_other_order_refuted.
+
